@@ -117,6 +117,8 @@ class TController(k3.Controller):
     def yield_point(self, kind="call"):
         t = self.me()
         if t is not None:
+            if self.aborting:
+                raise _Abort()      # a thread being unwound must not park again (line events of `with` exits)
             t.last_kind = kind
         super().yield_point(kind)
 
